@@ -24,7 +24,7 @@ COMPONENTS = {"real": ["pyjelly serializers (stream_frames, flat_stream_to_frame
                        "stall_after faults", "frame accounting by simkit.refdec"]}
 ASSUMPTIONS = ["GraphStream: only the two unambiguous write-side clauses are enforced (look-ahead of one quad is how "
                "graphs are delimited)", "blocking sources only"]
-PROBES = ["write_runs", "stall_runs", "loop_runs", "stall_fired", "stall_partial_next_frame", "frames_ge3",
+PROBES = ["explicit_flow_runs", "raw_sink_runs", "write_runs", "stall_runs", "loop_runs", "stall_fired", "stall_partial_next_frame", "frames_ge3",
           "frontend_raw", "frontend_buffered", "physical_GRAPHS", "frame_size_1"]
 SHRINK_LISTS = ["ops", "items"]
 
@@ -53,8 +53,12 @@ def generate(rng, run, tier):
             integration=integration, physical=physical, logical=1 if physical == "TRIPLES" else 2, delimited=True,
             frame_size=rng.choice([1, 1, 2, 3, 4, 5, 8]), max_names=mn, max_prefixes=mp, max_datatypes=md,
             generalized=flags["generalized"], rdf_star=flags["rdf_star"], entry=entry)
+        if kind == "write" and physical != "GRAPHS" and rng.random() < 0.3:
+            # frame size configured through an explicit flow object; options.frame_size keeps its default
+            cfg["flow"] = rng.choice(["FlatTriples" if physical == "TRIPLES" else "FlatQuads", "Bounded"])
+            cfg["options_frame_size"] = 250
         plan = {"cfg": cfg, "ops": [["stmt", *T.to_json(st)] for st in stmts], "source": "real",
-                "integration": integration}
+                "integration": integration, "sink": rng.choice(["bytesio", "raw"])}
     plan["kind"] = kind
     plan["consumer"] = rng.choice(["flat", "flat", "grouped"])
     plan["frontend"] = rng.choice(["raw", "raw", "buffered", "duck", "rwpair"])
@@ -83,6 +87,8 @@ def write_side(plan, sim):
     state = {"frames": 0, "closed": None, "viol": None}
 
     def gate(i):
+        if state.get("account"):
+            state["account"]()
         tr.ev.append(("pull", i, len(box[-1].flow) if box else None))
         cl = state["closed"]
         if cl is not None and i >= 1 and (i - 1) in cl and state["frames"] < cl[i - 1]:
@@ -96,24 +102,49 @@ def write_side(plan, sim):
         state["frames"] = 0
         out = io.BytesIO()
         if cfg["entry"] == "flat_file":
-            class Sink(io.BytesIO):
-                def write(s2, b):
-                    return super().write(b)
-            m = nodes.integ_mod(cfg)
-            # flat_stream_to_file hides the frames; observe them through the write calls of the sink
-            from pyjelly.serialize import ioutils as sio
-            orig = sio.write_delimited
-            frames_seen = []
+            # flat_stream_to_file hides the frames: observe them at the sink. Whatever has reached the sink when
+            # the serializer asks for more input is what has been "handed to the caller".
+            seen = {"bytes": 0, "frames": 0}
+            buf = bytearray()
 
-            def spy(frame, output):
-                tr.ev.append(("frame", len(frame.rows)))
-                state["frames"] += 1
-                return orig(frame, output)
-            m.write_delimited = spy
+            def account():
+                # complete delimited frames among the bytes written so far
+                pos = seen["bytes"]
+                while True:
+                    try:
+                        ln, p2 = wire.dec_varint(bytes(buf), pos)
+                    except wire.WireError:
+                        break
+                    if p2 + ln > len(buf):
+                        break
+                    nrows = len(wire.dec_frame(bytes(buf[p2:p2 + ln])).rows)
+                    tr.ev.append(("frame", nrows))
+                    state["frames"] += 1
+                    pos = p2 + ln
+                seen["bytes"] = pos
+            state["account"] = account
+            if plan.get("sink") == "raw":
+                class RawSink(io.RawIOBase):
+                    def writable(s2):
+                        return True
+
+                    def write(s2, b):
+                        buf.extend(bytes(b))
+                        return len(b)
+                out_obj = RawSink()
+            else:
+                class BufSink(io.BytesIO):
+                    def write(s2, b):
+                        buf.extend(bytes(b))
+                        return len(b)
+                out_obj = BufSink()
+            m = nodes.integ_mod(cfg)
             try:
-                m.flat_stream_to_file(nodes.input_gen(cfg, stmts, sim, gate), out, nodes.make_options(cfg))
+                m.flat_stream_to_file(nodes.input_gen(cfg, stmts, sim, gate), out_obj, nodes.make_options(cfg))
             finally:
-                m.write_delimited = orig
+                state["account"] = None
+            account()
+            out = io.BytesIO(bytes(buf))
         else:
             write = nodes.writer_for(cfg)
             for fr in nodes.frames_iter(cfg, plan["ops"], sim, gate, box):
@@ -125,6 +156,10 @@ def write_side(plan, sim):
         return out.getvalue()
 
     sim.count("write_runs")
+    if cfg.get("flow"):
+        sim.count("explicit_flow_runs")
+    if cfg["entry"] == "flat_file" and plan.get("sink") == "raw":
+        sim.count("raw_sink_runs")
     if cfg["frame_size"] == 1:
         sim.count("frame_size_1")
     sim.count("physical_" + cfg["physical"])
